@@ -258,8 +258,11 @@ def c19_c(ctx):
               'the position and offset updates are in different blocks (one can run without '
               'the other)', fn=ls, node=adv[0])
     wl = enclosing_loop(adv[0])
-    ok = isinstance(wl, ast.While) and contains(
-        ex.raw(wl.test), '{}({}) < eps'.format(f_p, th))
+    ok = False
+    if isinstance(wl, ast.While):
+        wt = ex.raw(wl.test)
+        parts = list(wt[2]) if wt[0] == 'bool' and wt[1] == 'and' else [wt]
+        ok = any(match(p, pattern('{}({}) < eps'.format(f_p, th))) is not None for p in parts)
     ctx.check(ok, ls, 'advance while below the threshold', 'while f(th) < eps',
               'the inner loop does not advance while f(th) < eps', fn=ls, node=wl or adv[0])
     ok = enclosing_loop(ret[0]) is not wl and enclosing_loop(ret[0]) is enclosing_loop(wl) \
